@@ -1,5 +1,8 @@
 use std::fmt::{Display, Formatter};
+#[cfg(not(feature = "verif"))]
 use std::sync::{Arc, Mutex};
+#[cfg(feature = "verif")]
+use crate::tyme::verif::{Arc, Mutex};
 
 use lazy_static::lazy_static;
 
